@@ -22,6 +22,7 @@ ASSUMPTIONS = [
     "shapes 4^3..7^3, (5,6,7), (8,6,4), 13^3, (9,11,13), (6,17,10); shell widths 1/min, 1.5/min, 0.05, 0.2, 0.5",
     "a shell is {bins: floor(|f| / dfreq) = i} with |f| from fftfreq; NaN is accepted only on shells where either image has no power",
     "loader-level oracle uses the half-maps returned by the loader itself (their disjointness is C09)",
+    "added during the seeding waves: shapes 13^3, (9,11,13), (6,17,10); zero_norm=False; fsc_with_average; operands of different / integer dtypes; magnitudes (counts on a pedestal, 3e8, 1e-9)",
 ]
 
 # sides with every small prime factor (13 and 17 are not "FFT-friendly" lengths: a padded or resampled transform shows there)
